@@ -631,7 +631,7 @@ func runC16(r *rt.Run, tier string) {
 func init() {
 	register(&Prop{
 		ID: "C16", Level: "fault_enumeration", Variant: "I", Design: "DESIGN.md §5 C16",
-		Rule: "Each run builds a package (25 codec pairs over none/gz/xz/bz2/zst), signs debian-binary ‖ control.* ‖ data.* with one of three fixture keys (two keyring candidates, one outsider) as _gpg<role> (role origin/maint/archive, signature member anywhere after debian-binary), picks a keyring composition, and in the fault-injecting two thirds applies one fault: substitution of one byte of one of the three signed members or of the signature member, insertion of a decoy control.tar / control.tar.gz / control.tar.zst / data.tar / data.tar.gz member before or after the genuine one, a request for a role that is not present, a keyring without the signer, an empty keyring, a signature made over only two of the three members, a decoy whose header read fails (for good or once), a decoy as torn last member, a failing disk range. A third of the runs also have 2..3 concurrent callers check ONE loaded package. The package is loaded and verified 1..4 times under tape-chosen member orders and disk profiles, reading the payload before or after verification. The thorough tier sweeps every fault position (every byte of the four members, every decoy variant) of each sampled package whose members total <= 6000 bytes.",
+		Rule: "Each run builds a package (25 codec pairs over none/gz/xz/bz2/zst), signs debian-binary ‖ control.* ‖ data.* with one of three fixture keys (two keyring candidates, one outsider) as _gpg<role> (role origin/maint/archive, signature member anywhere after debian-binary; a third of the packages carry a second genuine signature member for another role made by the other keyring candidate), picks a keyring composition, and in the fault-injecting two thirds applies one fault: substitution of one byte of one of the three signed members or of the signature member, insertion of a decoy control.tar / control.tar.gz / control.tar.zst / data.tar / data.tar.gz member before or after the genuine one, a request for a role that is not present, a keyring without the signer, an empty keyring, a signature made over only two of the three members, a decoy whose header read fails (for good or once), a decoy as torn last member, a failing disk range. A third of the runs also have 2..3 concurrent callers check ONE loaded package. The package is loaded and verified 1..4 times under tape-chosen member orders and disk profiles, reading the payload before or after verification. The thorough tier sweeps every fault position (every byte of the four members, every decoy variant) of each sampled package whose members total <= 6000 bytes.",
 		Run:  runC16, Sweep: true, SweepQuick: 0,
 		QuickRuns: 40000, QuickSecs: 45, ThoroughRuns: 4000, ThoroughSecs: 1200,
 		Components: map[string]interface{}{
